@@ -538,7 +538,8 @@ func evalSubqueryForValue(ctx context.Context, scope *ReferenceScope, expr parse
 		return nil, NewSubqueryTooManyRecordsError(expr)
 	}
 
-	if view.RecordLen() < 1 {
+	// A table without columns (an empty file, a JSON array of empty objects) has records without cells.
+	if view.RecordLen() < 1 || view.FieldLen() < 1 {
 		return value.NewNull(), nil
 	}
 
@@ -1109,7 +1110,8 @@ func evalSubqueryForArray(ctx context.Context, scope *ReferenceScope, expr parse
 		return nil, NewSubqueryTooManyFieldsError(expr)
 	}
 
-	if view.RecordLen() < 1 {
+	// A table without columns (an empty file, a JSON array of empty objects) has records without cells.
+	if view.RecordLen() < 1 || view.FieldLen() < 1 {
 		return nil, nil
 	}
 
